@@ -95,6 +95,10 @@ func c02(c *Ctx) {
 		}
 		mode := modeFor(i, rng)
 		b := model.Gen(rng, class, model.GenOpts{Syn: rng.Intn(8) == 0, Vec: VecBuild && rng.Intn(3) == 0})
+		if i%80 == 79 {
+			// record-header lengths across multiples of 128
+			b, class = model.GenMetaSweep(rng, ""), "metasweep"
+		}
 		fp := b.Fingerprint()
 		id := fmt.Sprintf("b%d", i)
 		if !c.Case(id, caseDesc{Class: class, Mode: mode, Docs: len(b.Docs), FP: fpString(fp)}) {
@@ -102,6 +106,9 @@ func c02(c *Ctx) {
 		}
 		m := model.Build(b)
 		zx.SetChunkMode(mode)
+		if class == "metasweep" {
+			c.R.Inc("batches_sweeping_record_header_lengths", 1)
+		}
 		if i%9 == 4 && len(b.Docs) > 0 {
 			// a batch the field validator rejects, then the corrected batch (another
 			// document order): the retry must show no trace of the rejected one
@@ -302,6 +309,14 @@ func c04(c *Ctx) {
 		b := model.Gen(rng, class, o4)
 		if class == "tall" {
 			forceDV(b, rng)
+		}
+		if i%97 == 96 {
+			// body (or whole image) exactly at a power of two
+			zx.SetChunkMode(mode)
+			if sb := sizedBatch(rng, sizedTargets[(i/97)%len(sizedTargets)]); sb != nil {
+				b, class = sb, "sized"
+				c.R.Inc("batches_tuned_to_an_exact_size", 1)
+			}
 		}
 		fp := b.Fingerprint()
 		id := fmt.Sprintf("b%d", i)
